@@ -46,6 +46,25 @@ def run(tier, R):
     R.assume("serde derive output for #[derive(Serialize, Deserialize)] newtypes is transparent over the inner bytes; serde formats respect the tuple/bytes framing they are asked for")
     for (cfg, mode), F in FS.items():
         check_cfg(F, R, cfg)
+        key_bytes(F, R, cfg)
+
+
+def key_bytes(F, R, cfg):
+    """semantic (BATCHEQ models, lib/sig_rules.py): the byte decoders the visitors of VerifyingKey delegate to keep the input bytes"""
+    import sig_rules as SR
+    I = lambda s: "%s:%s" % (cfg, s)
+    n = 0
+    for inst, f, status, msg in SR.key_decode_rules(F):
+        if status == "ok":
+            n += 1
+            R.ok("C16.sem.key_bytes", I(inst), msg)
+        elif status == "viol":
+            n += 1
+            R.viol("C16.sem.key_bytes", I(inst), msg, F.loc(f) if f else "")
+        elif status == "missing":
+            R.anchor_missing("C16.sem.key_bytes", I(inst), msg)
+        else:
+            R.note("C16.sem.key_bytes %s inconclusive (%s): the structural rules decide" % (I(inst), msg[:120]))
 
 
 def check_cfg(F, R, cfg):
